@@ -10,6 +10,11 @@ TCHAR = b"!#$%&'*+-.^_`|~0123456789abcdefghijklmnopqrstuvwxyzABCDEFGHIJKLMNOPQRS
 STRUCT = [b"\r", b"\n", b" ", b"\t", b":", b";", b",", b"=", b"+", b"-", b"0", b"1", b"9", b"a", b"f", b"F",
           b"\x00", b"\x80", b"\xff", b"x", b"/", b"%"]
 
+# multi-byte characters that some std predicate or mapping treats like an ASCII character: white space (char::is_whitespace,
+# str::trim), digits (is_numeric, is_digit), letters whose case mapping is ASCII or changes length (to_lowercase / to_uppercase)
+UNICODE_LOOKALIKES = ["\u00a0", "\u0085", "\u2003", "\u2028", "\u3000", "\u1680", "\u0663", "\uff11", "\u00b2", "\u212a", "\u017f", "\u0130", "\u0131",
+                      "\u00df", "\ufb01", "\u1e9e", "\u00c5", "\u212b"]
+
 GOOD_METHODS = [b"GET", b"POST", b"PUT", b"DELETE", b"OPTIONS", b"HEAD", b"M", b"PATCH", b"get", b"M-SEARCH",
                 "GÉT".encode(), b"a!b", "R\u00c9SUM\u20ac".encode(), "\U0001F600GET".encode(), "G\U0001F600".encode()]
 BAD_METHODS = [b"", b"G\xffT", b"G\rT", b"G\nT", b"\xc3", b"G\tT"]
